@@ -58,7 +58,9 @@ Skel == <<
   <<"global", "x", "\n", "for", "{", "x", "=", "func", "(", ")", "{", "return", "1", "}", "(", ")", "\n", "if", "x", "{", "break", "}", "}">>,
   <<"global", "x", "\n", "for", "x", "{", "try", "{", "return", "1", "}", "finally", "{", "x", "=", "2", "}", "}", "\n", "return", "x", "||", "x", "&&", "1">>,
   <<"x", ":=", "len", "(", "[", "]", ")", "\n", "y", ",", "len", ":=", "[", "1", ",", "2", "]", "\n", "return", "[", "x", ",", "y", ",", "len", "]">>,
-  <<"global", "x", "\n", "const", "k", "=", "2", "\n", "f", ":=", "func", "(", "k", ")", "{", "return", "k", "+", "x", "}", "\n", "return", "f", "(", "k", ")", "+", "k">>
+  <<"global", "x", "\n", "const", "k", "=", "2", "\n", "f", ":=", "func", "(", "k", ")", "{", "return", "k", "+", "x", "}", "\n", "return", "f", "(", "k", ")", "+", "k">>,
+  <<"try", "{", "const", "e", "=", "1", "\n", "var", "v", "}", "catch", "e", "{", "return", "e", "}", "finally", "{", "v", ":=", "2", "}">>,
+  <<"for", "k", ",", "v", "in", "{", "a", ":", "1", "}", "{", "const", "v", "=", "k", "\n", "k", ":=", "v", "}">>
 >>
 MaxSkel == 34
 \* an edit: t = 0 none, 1 insert token y after position p, 2 delete position p, 3 replace position p by token y,
